@@ -88,6 +88,21 @@ def run(ctx):
     # non-negative): only the model's transcription of that guard is compared.
     itemsq = [pc.make_item(i, adds, ret - 4) for (i, adds, ret, _, _) in pc.gen_items(rng, 4)]
     S.add(itemsq, pc.some_schedules(rng, 4, 2, 3), ("cms",), "Q-negative-returns")
+    # ---- S5: worker sketches whose heavy-hitter table holds no key although the worker counted records / added keys:
+    # an item that adds nothing but returns a record count, and an item whose two adds (two keys owning the same cell in
+    # every row, one occurrence each) cancel out.  All schedules on 1-3 workers: such a sketch occurs on either side of a
+    # pairwise merge, as the only content of a worker or after other items (added after seeded change
+    # C08_hh_merge_early_return_on_empty_other was missed: a merge that skips an all-zero table must still add the counters)
+    pair = None
+    for a in universe:
+        for b in universe:
+            if a < b and S.bmh[a] == S.bmh[b]:
+                pair = pair or (a, b)
+    items5 = [pc.make_item(0, [], 3), pc.make_item(1, [(universe[2], 2)], 1),
+              pc.make_item(2, [(pair[0], 1), (pair[1], 1)] if pair else [], 2)]
+    scheds5 = [s for n in (1, 2, 3) for s in pc.all_schedules(3, n)]
+    S.add(items5, scheds5, ("hh",), "S5-empty-hh-tables")
+    S.add(items5, pc.some_schedules(rng, 3, 3, 4) + pc.some_schedules(rng, 3, 2, 3), ("cms", "hh", "hll"), "S5-empty-hh-tables")
     # ---- S2: complete enumeration of a smaller space with all three sketches at once
     n2 = 3 if quick else 4
     items2 = pc.gen_items(rng, n2)
